@@ -71,6 +71,8 @@ func checkC06(p *Program, r *Result) {
 	r.rule("C06.f", "single owner of the destination writer", 1)
 	r.rule("C06.g", "IEEE polynomial everywhere", 3)
 	r.rule("C06.z", "checksum is 0 when CRCs are disabled", 1)
+	r.rule("C06.p", "the CRC wrappers do what the ordering rules assume: Checksum returns, ResetCRC resets, the constructors install the CRC writer that IncludeCRC asks for", 5)
+	checkCRCPrimitives(p, r, "C06.p")
 	r.rule("C06.h", "chunk CRC and size are the running values of this chunk, read before they are reset (C05.d)", 4)
 	importRule(p, r, "C06.h", func(sub *Result) { checkFlush(p, sub) }, func(o *Obligation) bool {
 		return !strings.Contains(o.Key, "MessageStartTime") && !strings.Contains(o.Key, "MessageEndTime") && !strings.Contains(o.Key, "per-chunk accumulator")
